@@ -315,3 +315,39 @@ pub fn token_soup(r: &mut Rng, maxtok: usize) -> String {
     }
     s
 }
+
+/// String literals with every escape form (valid, malformed, overlong) next to multi-byte characters.
+pub fn escape_string_program(r: &mut Rng) -> String {
+    let pieces = [
+        "a", "é", "😀", "\\n", "\\q", "\\x4", "\\x80", "\\xZZ", "\\u{41}", "\\u{", "\\u{110000}", "\\u{D800}", "\\u{_1}", "\\", "\\\\", "\r",
+        "\\u{1234567}", "\\u{FFFFFFFFF}", "\\u{00000000000041}", "\\u{100000000}", "\\xFFFFFFFFFF", "0", "1", "_", " ", "\\'", "µ", "\\u{}", "\\t", "\u{2028}",
+    ];
+    let n = r.range(0, 8);
+    let mut body = String::new();
+    for _ in 0..n {
+        body.push_str(*r.pick(&pieces));
+    }
+    let q = if r.chance(1, 5) { "'" } else { "\"" };
+    match r.below(5) {
+        0 => format!("include {q}{body}{q};"),
+        1 => format!("x = {q}{body}{q};"),
+        2 => format!("θ = 1; defcalgrammar {q}{body}{q};"),
+        3 => format!("bit[4] é = {q}{body}{q};"),
+        _ => format!("/* µ */ f({q}{body}{q}, 1);"),
+    }
+}
+
+/// `pad` filler tokens followed by a short tail: token counts sweep across the 64-token
+/// word boundaries of the parser's jointness bitmap.
+pub fn padded_tail(pad: u64, tail: &str) -> String {
+    let mut s = String::new();
+    for _ in 0..pad / 2 {
+        s.push_str("x;");
+    }
+    if pad % 2 == 1 {
+        s.push_str("; ");
+    }
+    s.push(' ');
+    s.push_str(tail);
+    s
+}
